@@ -6,6 +6,7 @@ import (
 	"go/types"
 	"math"
 	"math/big"
+	"strings"
 )
 
 func basicOf(t types.Type) *types.Basic {
@@ -406,7 +407,13 @@ func (in *Interp) Not(x Val) Val {
 			return s.Args[0]
 		}
 		if tok, ok := tokOf(s.Op); ok && len(s.Args) == 2 {
-			if n, ok := cmpNeg[tok]; ok {
+			// !(x < y) is x >= y only without NaN: rewrite ordered comparisons of non-floats only
+			exact := tok == token.EQL || tok == token.NEQ
+			if !exact {
+				ta, tb := natType(s.Args[0]), natType(s.Args[1])
+				exact = ta != nil && tb != nil && !isFloatType(ta) && !isFloatType(tb)
+			}
+			if n, ok := cmpNeg[tok]; ok && exact {
 				return &Sym{Op: n.String(), Args: s.Args, T: s.T}
 			}
 		}
@@ -597,12 +604,12 @@ func (in *Interp) Convert(x Val, from, to types.Type) Val {
 		// same-size integer conversions keep the bits
 		if bf, _, okf := intBits(fb); okf {
 			if bt, _, okt := intBits(tb); okt && bf == bt {
-				if s.Op == "bits" && len(s.Args) == 1 {
+				if strings.HasPrefix(s.Op, "bits:") && len(s.Args) == 1 {
 					if inner, ok := s.Args[0].(*Sym); ok && types.Identical(inner.T, to) {
 						return inner
 					}
 				}
-				r := &Sym{Op: "bits", Args: []Val{x}, T: to}
+				r := &Sym{Op: "bits:" + typeName(to), Args: []Val{x}, T: to}
 				if !isUnsigned(fb) && !isUnsigned(tb) {
 					r.Lo, r.Hi = s.Lo, s.Hi
 				}
@@ -643,7 +650,7 @@ func Reinterpret(v Val, to types.Type) Val {
 		if types.Identical(x.T, to) {
 			return x
 		}
-		if x.Op == "bits" && len(x.Args) == 1 {
+		if strings.HasPrefix(x.Op, "bits:") && len(x.Args) == 1 {
 			if inner, ok := x.Args[0].(*Sym); ok && types.Identical(inner.T, to) {
 				return inner
 			}
@@ -651,7 +658,7 @@ func Reinterpret(v Val, to types.Type) Val {
 				return inner
 			}
 		}
-		return &Sym{Op: "bits", Args: []Val{v}, T: to}
+		return &Sym{Op: "bits:" + typeName(to), Args: []Val{v}, T: to}
 	case Const:
 		if x.T != nil && types.Identical(x.T, to) {
 			return x
@@ -659,7 +666,7 @@ func Reinterpret(v Val, to types.Type) Val {
 		if x.V != nil && isIntType(to) && x.V.Kind() == constant.Int {
 			return Const{V: wrapInt(x.V, to), T: to}
 		}
-		return &Sym{Op: "bits", Args: []Val{v}, T: to}
+		return &Sym{Op: "bits:" + typeName(to), Args: []Val{v}, T: to}
 	}
 	return v
 }
